@@ -41,6 +41,7 @@ pub enum K {
     /// pushfq emulated in single-step mode (value pushed in `val`)
     Pushfq,
     Xgetbv,
+    MovFromCs,
     /// popfq intercepted in single-step mode (operand in `val`; not executed when `capture_popfq` is set)
     Popfq,
 }
@@ -114,6 +115,8 @@ pub struct Regs {
     pub rflags_override: Option<u64>,
     /// single-step mode: value every xgetbv reports (None = the instruction runs natively)
     pub xgetbv_override: Option<u64>,
+    /// single-step mode: reads of CS report the emulated selector `sreg[1]`
+    pub emulate_cs_reads: bool,
     /// single-step mode: other RFLAGS bits (VIF, VIP, AC, ID, IOPL, NT) the emulated pushfq reports as set
     pub pushfq_or: u64,
     /// single-step mode: intercept popfq, record its operand and skip it (the operand becomes the next override)
@@ -138,6 +141,7 @@ pub static mut REGS: Regs = Regs {
     swapgs_count: 0,
     rflags_override: None,
     xgetbv_override: None,
+    emulate_cs_reads: false,
     pushfq_or: 0,
     capture_popfq: false,
 };
@@ -675,6 +679,36 @@ extern "C" fn handler(sig: i32, info: *mut libc::siginfo_t, uc: *mut libc::c_voi
                     push_event(ev);
                     continue;
                 }
+                // `mov r, cs` is unprivileged and CS cannot really be changed by this process: with an emulated CS (set by the
+                // emulated far return of CS::set_reg) reads of CS are emulated here as well
+                if regs().emulate_cs_reads {
+                    let mut q = 0usize;
+                    let mut b = *(rip as *const u8);
+                    if b == 0x66 {
+                        q += 1;
+                        b = *(rip as *const u8).add(q);
+                    }
+                    let mut rexb = 0usize;
+                    if b & 0xf0 == 0x40 {
+                        rexb = (b & 1) as usize;
+                        q += 1;
+                        b = *(rip as *const u8).add(q);
+                    }
+                    let m = *(rip as *const u8).add(q + 1);
+                    if b == 0x8c && m >> 6 == 3 && (m >> 3) & 7 == 1 {
+                        let dst = (m & 7) as usize | (rexb << 3);
+                        let v = regs().sreg[1] as u64;
+                        ctx.set(dst, v);
+                        ctx.set_rip(rip + q as u64 + 2);
+                        let mut ev = Event::empty();
+                        ev.kind = K::MovFromCs;
+                        ev.val = v;
+                        ev.rip = rip;
+                        ev.len = (q + 2) as u8;
+                        push_event(ev);
+                        continue;
+                    }
+                }
                 // xgetbv (0F 01 D0) is unprivileged too: with an emulated XCR0 chosen by the test it is emulated here
                 if opc == 0x0f && *(rip as *const u8).add(1) == 0x01 && *(rip as *const u8).add(2) == 0xd0 {
                     if let Some(v) = regs().xgetbv_override {
@@ -864,6 +898,7 @@ pub fn fmt_event(e: &Event) -> String {
         K::Invpcid => format!("invpcid type={:#x} desc={:02x?}", e.val2, e.mem),
         K::Invlpgb => format!("invlpgb rax={:#x} ecx={:#x} edx={:#x}", e.val, e.val2, e.val3),
         K::Xgetbv => format!("xgetbv ecx={:#x} -> {:#x}", e.n, e.val),
+        K::MovFromCs => format!("mov r, cs -> {:#x}", e.val),
         K::In => format!("in{} dx={:#x} -> {:#x}", e.width * 8, e.n, e.val),
         K::Out => format!("out{} dx={:#x} val={:#x}", e.width * 8, e.n, e.val),
         K::Lgdt | K::Lidt => format!("{:?} limit={:#x} base={:#x}", e.kind, e.n, e.val),
